@@ -185,11 +185,17 @@ crd write conv --command cmt`,
 			}
 		}
 
+		// validate chords and apply flag overrides like crd write does
 		wArgs, err := newWriteCmdArgsFromInputInstances(cmd, instances)
 		if err != nil {
 			return err
 		}
-		return writeYamlOutput(cmd, wArgs.instances)
+		// print what crd write reads: input instances, not the resolved ones
+		if len(instances) > 0 {
+			x, y := instances[0], wArgs.instances[0]
+			x.BPM, x.Velocity, x.Meter, x.Key = y.BPM, y.Velocity, y.Meter, y.Key
+		}
+		return writeYamlOutput(cmd, instances)
 	},
 }
 
